@@ -78,4 +78,31 @@ def r7f_format(text, log):
             return text
 
 
-RULES = {"R7f": r7f_format}
+_FS_OPS = ("rename", "remove_file", "set_permissions")
+
+
+def r20_explicit_fs(text, log):
+    """R20  `fs::OP(args)` / `std::fs::OP(args)`  ->  `fs::OP(vx_fs, args)`  for OP in rename, remove_file, set_permissions.
+    Verus has no global ghost state, so the unit's stub of each std::fs operation takes the file system as an explicit first
+    parameter; the rule passes the enclosing function's `vx_fs` at every direct call of such an operation, so that a call added
+    by an edit is checked against the same stub contract as the calls present when the unit was written.  Nothing is dropped."""
+    while True:
+        st = sig(lex(text))
+        done = True
+        for i, t in enumerate(st):
+            if t.kind == "ident" and t.text in _FS_OPS and i >= 3 and st[i - 1].text == ":" and st[i - 2].text == ":" and st[i - 3].text == "fs" \
+                    and i + 1 < len(st) and st[i + 1].text == "(":
+                if st[i + 2].text == "vx_fs":
+                    continue
+                start = st[i - 3].start
+                if i >= 6 and st[i - 4].text == ":" and st[i - 5].text == ":" and st[i - 6].text == "std":
+                    start = st[i - 6].start
+                text = text[:start] + "fs::" + t.text + "(vx_fs, " + text[st[i + 1].end:]
+                log["R20 explicit file system at fs::%s" % t.text] = log.get("R20 explicit file system at fs::%s" % t.text, 0) + 1
+                done = False
+                break
+        if done:
+            return text
+
+
+RULES = {"R7f": r7f_format, "R20": r20_explicit_fs}
